@@ -309,12 +309,16 @@ end shape
 
 /-! ### `fields` and `unwind`: what happens to the endpoints of the current element -/
 
-theorem stepFields_eq (ks : List String) (t : Traveler) :
+theorem stepFields_eq (ks : List String) (t : Traveler) (c : Elem) (hc : t.cur = some c) :
     stepFields ks t =
-      { cur := some (fieldsElem ks (t.cur.getD {})), marks := t.marks, path := [PathEl.vertex ""] } := by
+      { cur := some (fieldsElem ks c), marks := t.marks, path := [PathEl.vertex ""] } := by
   unfold stepFields fieldsElem
-  rcases h : fieldKeys ks with ⟨incl, excl⟩
-  rfl
+  rw [hc]
+
+/-- A row without a current element (a `*Null` row) is passed on unchanged. -/
+theorem stepFields_none (ks : List String) (t : Traveler) (hc : t.cur = none) : stepFields ks t = t := by
+  unfold stepFields
+  rw [hc]
 
 theorem exclOne_ends (orig : Elem) (s : ExclState) (parts : List String) :
     ((exclOne orig s parts).e.to = s.e.to ∨ (exclOne orig s parts).e.to = "") ∧
@@ -402,25 +406,23 @@ theorem ws_fields {ty : DataType} {marks : MarkTypes} {t : Traveler} (ks : List 
     (hty : ty = .vertex ∨ ty = .edge)
     (hE : ty = .edge → E "" ∨ ["to"] ∉ (fieldKeys ks).2)
     (h : WellShapedG E ty marks t) : WellShapedG E ty marks (stepFields ks t) := by
-  rw [stepFields_eq]
-  have hends := fieldsElem_ends ks (t.cur.getD {})
-  refine ⟨?_, payload_of_carries (carries_of_elem hty) _ _, fun hc => h.2.2 hc⟩
   rcases hty with rfl | rfl
   · obtain ⟨e, he, hfrm, hto⟩ := h.1
-    rw [he] at hends
-    simp only [Option.getD_some] at hends
+    have hends := fieldsElem_ends ks e
+    rw [stepFields_eq ks t e he]
+    refine ⟨?_, payload_of_carries (carries_of_elem (Or.inl rfl)) _ _, fun hc => h.2.2 hc⟩
     refine ⟨_, rfl, ?_, ?_⟩
-    · rw [he]; rcases hends.2.1 with h' | h'
+    · rcases hends.2.1 with h' | h'
       · exact h'.trans hfrm
       · exact h'
-    · rw [he]; rcases hends.1 with h' | h'
+    · rcases hends.1 with h' | h'
       · exact h'.trans hto
       · exact h'
   · obtain ⟨e, he, hto⟩ := h.1
-    rw [he] at hends
-    simp only [Option.getD_some] at hends
+    have hends := fieldsElem_ends ks e
+    rw [stepFields_eq ks t e he]
+    refine ⟨?_, payload_of_carries (carries_of_elem (Or.inr rfl)) _ _, fun hc => h.2.2 hc⟩
     refine ⟨_, rfl, ?_⟩
-    rw [he]
     show E (fieldsElem ks e).to
     rcases hE rfl with h0 | hk
     · rcases hends.1 with h' | h'
@@ -835,7 +837,7 @@ theorem curS_eq {ty : DataType} {t : Traveler} (hty : ty = .vertex ∨ ty = .edg
 theorem stepFieldsS_eq {ty : DataType} {ks : List String} {t : Traveler} {c : Elem}
     (hty : ty = .vertex ∨ ty = .edge) (hc : t.cur = some c) :
     stepFieldsS ty ks t = some (stepFields ks t) := by
-  rw [stepFields_eq]
+  rw [stepFields_eq _ _ _ hc]
   unfold stepFieldsS
   rw [curS_eq hty, hc]
   rfl
